@@ -5,6 +5,7 @@ import (
 	"go/ast"
 	"go/token"
 	"go/types"
+	"regexp"
 	"strings"
 
 	"golang.org/x/tools/go/packages"
@@ -456,4 +457,435 @@ func sameCell(a, b ssa.Value) bool {
 	la, ok1 := a.(*ssa.UnOp)
 	lb, ok2 := b.(*ssa.UnOp)
 	return ok1 && ok2 && la.Op == token.MUL && lb.Op == token.MUL && la.X == lb.X
+}
+
+// ruleHandlerDiscipline: (a) where an error branch is emitted, its body is exactly what the handler returns - nothing is put
+// in front of the return (no close that would release dependants of a failed provider, no blocking call); (b) the injector-
+// level handlers themselves emit only the zero declaration and the return.
+func ruleHandlerDiscipline(c *Ctx, rule string) {
+	L := c.L
+	p := L.Pkgs[genPkg]
+	gs := genFn(c, rule, "generateStmts")
+	bws := genFn(c, rule, "(*InjectorProviderCallStmt).buildWaitStatement")
+	beh := genFn(c, rule, "(*InjectorProviderCallStmt).buildErrorHandlingStatement")
+	if gs == nil || bws == nil || beh == nil {
+		return
+	}
+	// (a)
+	n := 0
+	for _, fn := range []*ssa.Function{bws, beh} {
+		for _, cs := range callsIn(fn) {
+			if cs.common.StaticCallee() != nil || cs.common.IsInvoke() || cs.value() == nil {
+				continue
+			}
+			if _, isB := cs.common.Value.(*ssa.Builtin); isB {
+				continue
+			}
+			if _, isP := resolve(cs.common.Value).(*ssa.Parameter); !isP {
+				continue
+			}
+			n++
+			call := cs.value()
+			okUse, why := true, "stored as the branch body"
+			stored := false
+			var follow func(v ssa.Value, depth int)
+			follow = func(v ssa.Value, depth int) {
+				if v.Referrers() == nil || depth > 4 {
+					return
+				}
+				for _, r := range *v.Referrers() {
+					switch x := r.(type) {
+					case *ssa.Store:
+						if fa, ok := x.Addr.(*ssa.FieldAddr); ok && x.Val == v {
+							k := fieldKey(fa)
+							if k == "go/ast.BlockStmt.List" || k == "go/ast.CommClause.Body" || k == "go/ast.CaseClause.Body" {
+								stored = true
+								continue
+							}
+						}
+						if al, ok := x.Addr.(*ssa.Alloc); ok && x.Val == v {
+							// spilled into a local: follow its loads
+							for _, rr := range *al.Referrers() {
+								if ld, ok := rr.(*ssa.UnOp); ok && ld.Op == token.MUL {
+									follow(ld, depth+1)
+								}
+							}
+							continue
+						}
+						okUse, why = false, "the handler's statements are stored into "+describe(x.Addr)
+					case *ssa.DebugRef:
+					case *ssa.Phi:
+						follow(x, depth+1)
+					default:
+						okUse, why = false, "the handler's statements are passed to "+describe2(r)+" before they become the branch body"
+					}
+				}
+			}
+			follow(call, 0)
+			c.check(okUse && stored, rule, fnName(fn)+":error-branch-is-the-handler's-statements", L.pos(call.Pos()),
+				"the emitted failure branch consists of exactly the statements the error handler returns (a failed provider closes nothing and waits for nothing before returning)", why)
+		}
+	}
+	c.floor(rule, "handler invocations in the error-branch builders", n, 2)
+	// (b)
+	// every function or closure of the handler type func(ast.Expr) []ast.Stmt, wherever it is defined
+	m := 0
+	hasReturn := map[ast.Node]bool{}
+	where := map[ast.Node]*tmplSite{}
+	for _, s := range collectTemplates(p) {
+		if s.fn == nil || s.parent != nil || !strings.HasSuffix(s.kind, "Stmt") {
+			continue
+		}
+		var owner ast.Node
+		if s.fnLit != nil {
+			if t := p.TypesInfo.TypeOf(s.fnLit); t != nil && isHandlerSig(t) {
+				owner = s.fnLit
+			}
+		} else if o := p.TypesInfo.Defs[s.fn.Name]; o != nil && isHandlerSig(o.Type()) {
+			owner = s.fn
+		}
+		if owner == nil {
+			continue
+		}
+		m++
+		if _, seen := hasReturn[owner]; !seen {
+			hasReturn[owner] = false
+			where[owner] = s
+		}
+		if s.kind == "ReturnStmt" {
+			hasReturn[owner] = true
+		}
+		c.check(s.kind == "DeclStmt" || s.kind == "ReturnStmt", rule, "template:error-handler-emits:"+s.kind, L.pos(s.lit.Pos()),
+			"an error handler emits only `var zero T` and the return (it neither blocks, releases nor records anything before the enclosing function returns the error)", s.kind+" in "+s.fnName())
+	}
+	for owner, ok := range hasReturn {
+		c.check(ok, rule, "template:error-handler-returns", L.pos(owner.Pos()), "every error handler ends the enclosing function with a return", where[owner].fnName())
+	}
+	c.floor(rule, "statements emitted by error handlers", m, 4)
+}
+
+func isHandlerSig(t types.Type) bool {
+	sig, ok := t.Underlying().(*types.Signature)
+	if !ok || sig.Params().Len() != 1 || sig.Results().Len() != 1 {
+		return false
+	}
+	return sig.Params().At(0).Type().String() == "go/ast.Expr" && sig.Results().At(0).Type().String() == "[]go/ast.Stmt"
+}
+
+func describe2(in ssa.Instruction) string {
+	if v, ok := in.(ssa.Value); ok {
+		return describe(v)
+	}
+	return in.String()
+}
+
+// ruleSameContextPredicate: every site that asks "is this injector argument the context?" asks the same question of the same
+// value. Build (injectContextArg) decides whether a context parameter exists; the generator decides per site whether the
+// errgroup is derived from it and whether waits get their ctx.Done() case. A site that normalises the type differently
+// (alias resolution, pointer stripping) makes the sites disagree.
+func ruleSameContextPredicate(c *Ctx, rule string) {
+	L := c.L
+	pred := resolveRole(c, genPkg, "isContextType")
+	if pred == nil {
+		c.undecided(rule, "isContextType", "function not found")
+		return
+	}
+	re := regexp.MustCompile(`param:[A-Za-z_0-9]+`)
+	shapes := map[string][]string{}
+	n := 0
+	for _, fn := range pkgFuncs(L, genPkg) {
+		for _, cs := range callsIn(fn) {
+			if cs.common.StaticCallee() != pred || len(cs.common.Args) != 1 {
+				continue
+			}
+			s := newSym(L, map[string]bool{})
+			s.maxD = 0
+			for _, t := range s.eval(cs.arg(0)) {
+				if !strings.Contains(t, "InjectorArgument.Type(") {
+					continue
+				}
+				n++
+				// which argument is tested is the scan's business (loop element or predicate parameter); the rule compares what is
+				// done to its type
+				k := re.ReplaceAllString(elideCallArg(t, "InjectorArgument.Type("), "param:_")
+				shapes[k] = append(shapes[k], fnName(fn)+" at "+L.pos(cs.instr.Pos()))
+			}
+		}
+	}
+	c.floor(rule, "isContextType(arg.Type) sites over injector arguments", n, 3)
+	if len(shapes) <= 1 {
+		c.ok(rule, fmt.Sprintf("all %d sites test the same expression of the argument's type", n), strings.Join(sortedKeys(shapes), " | "))
+		return
+	}
+	// report the minority shapes
+	major, cnt := "", 0
+	for k, v := range shapes {
+		if len(v) > cnt {
+			major, cnt = k, len(v)
+		}
+	}
+	for k, v := range shapes {
+		if k == major {
+			continue
+		}
+		c.fail(rule, "isContextType:argument-shape-differs", v[0], "the context argument is recognised through a different expression here than at the other sites: the graph and the generator can disagree on whether the injector has a context (errgroup without context, waits without ctx.Done())", "here: "+k, "elsewhere: "+major+" ("+strings.Join(shapes[major], "; ")+")")
+	}
+}
+
+// elideCallArg replaces the (balanced) argument text after each occurrence of marker by "_".
+func elideCallArg(t, marker string) string {
+	out := ""
+	for {
+		i := strings.Index(t, marker)
+		if i < 0 {
+			return out + t
+		}
+		out += t[:i+len(marker)] + "_"
+		rest := t[i+len(marker):]
+		depth, j := 0, 0
+		for j = 0; j < len(rest); j++ {
+			if rest[j] == '(' {
+				depth++
+			}
+			if rest[j] == ')' {
+				if depth == 0 {
+					break
+				}
+				depth--
+			}
+		}
+		t = rest[j:]
+	}
+}
+
+// rulePackagelessRendererOnlyAsFallback (migrate): the standalone type printer knows nothing about the output file's import
+// names and registers no import; it may only run when there is no TypeConverter. Every other call prints a qualified type
+// under a qualifier the output does not import (or leaves it unqualified).
+func rulePackagelessRendererOnlyAsFallback(c *Ctx, rule string) {
+	L := c.L
+	r := resolveRole(c, migPkg, "typeToExpr")
+	if r == nil {
+		c.undecided(rule, "typeToExpr", "standalone type printer not found")
+		return
+	}
+	c.seen(fnName(r))
+	n := 0
+	for _, fn := range pkgFuncs(L, migPkg) {
+		if fn == r {
+			continue
+		}
+		for _, cs := range callsIn(fn) {
+			if cs.common.StaticCallee() != r {
+				continue
+			}
+			n++
+			ok, why := false, "the call is not on the `converter == nil` side of a test"
+			for _, iff := range controllingIfs(cs.instr) {
+				bo, isB := iff.Cond.(*ssa.BinOp)
+				if !isB || (bo.Op != token.EQL && bo.Op != token.NEQ) {
+					continue
+				}
+				var other ssa.Value
+				switch {
+				case isNilConst(bo.X):
+					other = bo.Y
+				case isNilConst(bo.Y):
+					other = bo.X
+				default:
+					continue
+				}
+				if !strings.HasSuffix(other.Type().String(), migPkg+".TypeConverter") {
+					continue
+				}
+				nilSide := iff.Block().Succs[0]
+				if bo.Op == token.NEQ {
+					nilSide = iff.Block().Succs[1]
+				}
+				if nilSide == cs.instr.Block() || nilSide.Dominates(cs.instr.Block()) {
+					ok, why = true, fmt.Sprintf("on the nil side of the converter test in block %d", iff.Block().Index)
+				}
+			}
+			c.check(ok, rule, fnName(fn)+":package-less-type-printer", L.pos(cs.instr.Pos()),
+				"the converter-unaware type printer is only the fallback when no TypeConverter exists (otherwise types are printed through the converter, which qualifies them and registers their imports)", why)
+		}
+	}
+	c.floor(rule, "fallback calls of the standalone type printer", n, 2)
+}
+
+// ruleImportSnapshotLast (migrate): the import list of the output is read from the converter after every step that can
+// still register an import (pattern import collection, declaration building).
+func ruleImportSnapshotLast(c *Ctx, rule string) map[*ssa.Function]bool {
+	L := c.L
+	const field = "internal/migrate.TypeConverter.imports"
+	// functions that write the converter's import table, and everything in the package that can reach them
+	writers := map[*ssa.Function]bool{}
+	fns := pkgFuncs(L, migPkg)
+	for _, fn := range fns {
+		for _, b := range fn.Blocks {
+			for _, in := range b.Instrs {
+				if mu, ok := in.(*ssa.MapUpdate); ok {
+					if ld, ok := mu.Map.(*ssa.UnOp); ok {
+						if fa, ok := ld.X.(*ssa.FieldAddr); ok && fieldKey(fa) == field {
+							writers[fn] = true
+						}
+					}
+				}
+			}
+		}
+	}
+	c.floor(rule, "functions that record an import in the converter", len(writers), 1)
+	cg := L.callgraph()
+	calleesAt := func(cs callSite) []*ssa.Function {
+		if f := cs.common.StaticCallee(); f != nil {
+			return []*ssa.Function{f}
+		}
+		var out []*ssa.Function
+		if nd := cg.Nodes[cs.fn]; nd != nil {
+			for _, e := range nd.Out {
+				if e.Site == cs.instr {
+					out = append(out, e.Callee.Func)
+				}
+			}
+		}
+		return out
+	}
+	changed := true
+	for changed {
+		changed = false
+		for _, fn := range fns {
+			if writers[fn] {
+				continue
+			}
+			for _, w := range withClosures(fn) {
+				for _, cs := range callsIn(w) {
+					for _, cal := range calleesAt(cs) {
+						if writers[cal] && !writers[fn] {
+							writers[fn] = true
+							changed = true
+						}
+					}
+				}
+			}
+		}
+	}
+	snap := resolveRole(c, migPkg, "(*TypeConverter).Imports")
+	if snap == nil {
+		c.undecided(rule, "TypeConverter.Imports", "method not found")
+		return writers
+	}
+	n := 0
+	for _, fn := range fns {
+		for _, s := range callsIn(fn) {
+			if s.common.StaticCallee() != snap {
+				continue
+			}
+			n++
+			bad := ""
+			for _, t := range callsIn(fn) {
+				if t.instr == s.instr {
+					continue
+				}
+				for _, cal := range calleesAt(t) {
+					if writers[cal] && reachableAfter(s.instr, t.instr) {
+						bad = fmt.Sprintf("%s at %s can still register an import after the list was read", cal.Name(), L.pos(t.instr.Pos()))
+					}
+				}
+			}
+			c.check(bad == "", rule, fnName(fn)+":import-list-read-last", L.pos(s.instr.Pos()),
+				"the output's import list is read from the converter only after every step that can register an import (pattern collection, declaration building)", bad)
+		}
+	}
+	c.floor(rule, "reads of the converter's import list", n, 1)
+	return writers
+}
+
+// ruleNoImportForSkippedFields (migrate): while the struct transforms select fields, a call that registers an import (type
+// printing through the converter) is made only for a field that is then included: every path from such a call to the next
+// field (loop header, or return of a range-over-func body) passes the append to the selected-field list. Otherwise the
+// output imports packages that only skipped fields mention.
+func ruleNoImportForSkippedFields(c *Ctx, rule string, writers map[*ssa.Function]bool) {
+	L := c.L
+	n := 0
+	for _, name := range []string{"(*Transformer).transformStruct", "(*Transformer).transformFieldsOf"} {
+		top := resolveRole(c, migPkg, name)
+		if top == nil {
+			c.undecided(rule, name, "function not found")
+			continue
+		}
+		for _, fn := range withClosures(top) {
+			n++
+			include := map[*ssa.BasicBlock]ssa.Instruction{}
+			for _, cs := range callsIn(fn) {
+				if bi, ok := cs.common.Value.(*ssa.Builtin); ok && bi.Name() == "append" && cs.value() != nil && strings.HasSuffix(cs.value().Type().String(), "[]"+migPkg+".fieldInfo") {
+					include[cs.instr.Block()] = cs.instr
+				}
+			}
+			for _, cs := range callsIn(fn) {
+				cal := cs.common.StaticCallee()
+				if cal == nil || !writers[cal] {
+					continue
+				}
+				b := cs.instr.Block()
+				// the next field: innermost loop header, or (range-over-func body) any return
+				var hdr *ssa.BasicBlock
+				for d := b.Idom(); d != nil; d = d.Idom() {
+					if reachable(b, d) {
+						hdr = d
+						break
+					}
+				}
+				if hdr == nil && fn.Parent() == nil {
+					continue // not per field
+				}
+				if inc, ok := include[b]; ok && instrBefore(cs.instr, inc) {
+					c.ok(rule, fnName(fn)+": "+cal.Name()+" is evaluated as part of the append of an included field", "same block")
+					continue
+				}
+				escapes := false
+				seen := map[*ssa.BasicBlock]bool{}
+				stack := append([]*ssa.BasicBlock{}, b.Succs...)
+				if len(b.Succs) == 0 {
+					escapes = true
+				}
+				for len(stack) > 0 && !escapes {
+					x := stack[len(stack)-1]
+					stack = stack[:len(stack)-1]
+					if seen[x] {
+						continue
+					}
+					seen[x] = true
+					if _, inc := include[x]; inc {
+						continue
+					}
+					if x == hdr {
+						escapes = true
+						break
+					}
+					if hdr == nil && len(x.Succs) == 0 {
+						escapes = true
+						break
+					}
+					stack = append(stack, x.Succs...)
+				}
+				c.check(!escapes, rule, fnName(top)+":import-registered-for-skipped-field", L.pos(cs.instr.Pos()),
+					"a type is printed through the converter (which records its package as an import) only for fields that are included in the generated constructor/accessor", cal.Name()+" can be followed by the next field without the field being selected")
+			}
+		}
+	}
+	c.floor(rule, "field-selection functions scanned", n, 2)
+}
+
+func instrBefore(a, b ssa.Instruction) bool {
+	if a.Block() != b.Block() {
+		return false
+	}
+	for _, in := range a.Block().Instrs {
+		if in == a {
+			return true
+		}
+		if in == b {
+			return false
+		}
+	}
+	return false
 }
